@@ -277,7 +277,13 @@ def describe_parts(p):
     return d
 
 
-def decide(run, jobs, leg, shards, lookups, quant_path, stats):
+def decide(run, jobs, leg, shards, lookups, quant_path, stats, chunk=40000):
+    """judge the replies to jobs (in chunks, to bound memory)"""
+    for k in range(0, len(jobs), chunk):
+        decide_chunk(run, jobs[k:k + chunk], leg if len(jobs) <= chunk else "%s%d" % (leg, k // chunk), shards, lookups, quant_path, stats)
+
+
+def decide_chunk(run, jobs, leg, shards, lookups, quant_path, stats):
     t0 = time.time()
     srcs = sorted({j["srcq"] for j in jobs if j.get("srcq")})
     src_index = {s: k for k, s in enumerate(srcs)}
@@ -309,7 +315,6 @@ def decide(run, jobs, leg, shards, lookups, quant_path, stats):
             run.nontrivial(q)
         if "REJECT" in tags:
             run.violation(case_of(ev, jobs[i], leg, v), LAW, observed_of(ev), "parts")
-    return events
 
 
 def pick_units(dump, rng, n):
